@@ -27,6 +27,8 @@ def sStyleName : Str := [115, 116, 121, 108, 101, 45, 110, 97, 109, 101]
 def sOutlineLevel : Str := [111, 117, 116, 108, 105, 110, 101, 45, 108, 101, 118, 101, 108]
 def sColsSpanned : Str := [110, 117, 109, 98, 101, 114, 45, 99, 111, 108, 117, 109, 110, 115, 45, 115, 112, 97, 110, 110, 101, 100]
 def sRowsSpanned : Str := [110, 117, 109, 98, 101, 114, 45, 114, 111, 119, 115, 45, 115, 112, 97, 110, 110, 101, 100]
+def sTableColumn : Str := [116, 97, 98, 108, 101, 45, 99, 111, 108, 117, 109, 110]
+def sColsRepeated : Str := [110, 117, 109, 98, 101, 114, 45, 99, 111, 108, 117, 109, 110, 115, 45, 114, 101, 112, 101, 97, 116, 101, 100]
 def sStyles : Str := [115, 116, 121, 108, 101, 115]
 def sAutoStyles : Str := [97, 117, 116, 111, 109, 97, 116, 105, 99, 45, 115, 116, 121, 108, 101, 115]
 def sStyle : Str := [115, 116, 121, 108, 101]
@@ -179,15 +181,19 @@ end
 
 /-! ### tables: ParseTable / parseCell / processRowSpans -/
 
-def spanOf (s : Str) : Nat :=
-  match parseNat? s with
-  | some v => if v > 0 then v else 1
-  | none => 1
+/-- `number-columns-spanned` / `number-rows-spanned`: accepted in `1..maxCellSpan`, else 1 -/
+def spanOf (s : Str) : Nat := boundedSpan s
 
 def parseCell (tc : Node) : Cell :=
   let texts := ((childrenNamed tc.kids sP).map paraText).filter (· ≠ [])
   { text := joinWith [10] texts, colSpan := spanOf (tc.attr sColsSpanned), rowSpan := spanOf (tc.attr sRowsSpanned),
     covered := false }
+
+/-- `parseTableColumns`: one width per column, a `table:table-column` standing for
+`number-columns-repeated` columns when that is in `1..maxCellSpan`, for one otherwise; the
+result is `len(ParsedTable.ColWidths)`, which sizes the document-model table -/
+def columnCount (tbl : Node) : Nat :=
+  ((childrenNamed tbl.kids sTableColumn).map fun col => boundedSpan (col.attr sColsRepeated)).sum
 
 def parseRows (tbl : Node) : List (List Cell) :=
   (childrenNamed tbl.kids sTableRow).map fun tr => (childrenNamed tr.kids sTableCell).map parseCell
